@@ -54,17 +54,16 @@ func init() {
 // unicode array and return it back to its caller.
 func reverse(s []byte) []byte {
 	cursorIn := 0
-	inputRunes := []rune(string(s))
 	cursorOut := len(s)
 	output := make([]byte, len(s))
-	for i := 0; i < len(inputRunes); {
-		wid := utf8.RuneLen(inputRunes[i])
-		i++
-		for i < len(inputRunes) {
-			r := inputRunes[i]
-			if unicode.Is(unicode.Mn, r) || unicode.Is(unicode.Me, r) || unicode.Is(unicode.Mc, r) {
-				wid += utf8.RuneLen(r)
-				i++
+	for cursorIn < len(s) {
+		// decode from the input bytes themselves so that widths stay
+		// correct for invalid UTF-8 (an invalid byte has width 1)
+		_, wid := utf8.DecodeRune(s[cursorIn:])
+		for cursorIn+wid < len(s) {
+			r, w := utf8.DecodeRune(s[cursorIn+wid:])
+			if r != utf8.RuneError && (unicode.Is(unicode.Mn, r) || unicode.Is(unicode.Me, r) || unicode.Is(unicode.Mc, r)) {
+				wid += w
 			} else {
 				break
 			}
